@@ -262,7 +262,7 @@ func genSlowHistory(r *lib.Rng, nbursts int) []sstep {
 			continue
 		}
 		n := 1 + r.Intn(6)
-		pause := lib.Pick(r, 0, 0, 5, 20, 60, 120, 250)
+		pause := lib.Pick(r, 0, 0, 0, 5, 20, 120, 250)
 		var cur []int
 		used := map[int]bool{}
 		for i := 0; i < n; i++ {
@@ -329,7 +329,7 @@ func lsnSlowChild(a lib.Args) {
 		return
 	}
 	r := lib.NewRng(a.Seed ^ 0x736c6f77)
-	n := 8
+	n := 14
 	if a.Tier == "thorough" {
 		n = 60
 	}
